@@ -300,7 +300,7 @@ func c48Read(r *rep.Report, rnd *rand.Rand, path string, gitOK bool, gitDir stri
 	}
 	// git leg: seeded sample + cases where go-git disagrees with the spec.  Of the latter, up to 25 per signature
 	// (the report keeps 25 per signature) in file order, so that the set of reported signatures does not depend on the seed.
-	budget := 700
+	budget := 500
 	if rep.Thorough() {
 		budget = 6000
 	}
@@ -662,7 +662,7 @@ func c48Write(r *rep.Report, rnd *rand.Rand, path string, gitOK bool, gitDir str
 		return err
 	}
 	sort.Slice(rows, func(i, j int) bool { return strings.Join(rows[i].V, ",") < strings.Join(rows[j].V, ",") })
-	budget := 150
+	budget := 100
 	if rep.Thorough() {
 		budget = 1500
 	}
